@@ -12,6 +12,7 @@ import (
 	"github.com/meshplus/bitxhub-model/pb"
 	"github.com/meshplus/bitxhub/internal/executor/contracts"
 	"github.com/meshplus/bitxhub/internal/ledger"
+	"github.com/meshplus/bitxhub/internal/router"
 	"github.com/meshplus/bitxhub/verifharness/fix"
 	"github.com/meshplus/bitxhub/verifharness/mc"
 )
@@ -340,6 +341,44 @@ func (in *icInst) check(c *mc.Ctx, o icOracle, prop string, path []string) {
 		}
 		if len(st.exp) == 0 && len(res.Meta.MultiTxCounter) != 0 {
 			bad("multitx-entry-in-empty-block", "empty block carries multi-tx notifications %v", res.Meta.MultiTxCounter)
+		}
+		// what the router hands to the pier of each chain for this block (the real
+		// InterchainRouter.GetInterchainTxWrappers over the replica's ledger) must be exactly
+		// the transactions the block's delivery set lists for that chain, in that order
+		rt, err := router.New(fix.Logger(), nil, r.L, nil, 1)
+		if err != nil {
+			panic(err)
+		}
+		for _, chain := range []string{fix.ChainA, fix.ChainB, fix.ChainC} {
+			ch := make(chan *pb.InterchainTxWrappers, 4)
+			if err := rt.GetInterchainTxWrappers(chain, st.height, st.height, ch); err != nil {
+				bad("router-error", "router cannot produce the delivery of block %d for %s: %v", st.height, chain, err)
+				continue
+			}
+			var got []string
+			for ws := range ch {
+				for _, w := range ws.InterchainTxWrappers {
+					for _, vt := range w.Transactions {
+						if vt.Tx == nil {
+							got = append(got, "<nil>")
+						} else {
+							got = append(got, vt.Tx.GetHash().String())
+						}
+					}
+				}
+			}
+			var want []string
+			if sl := res.Meta.Counter[chain]; sl != nil {
+				for _, vi := range sl.Slice {
+					if int(vi.Index) < len(st.txs) {
+						want = append(want, st.txs[vi.Index].GetHash().String())
+					}
+				}
+			}
+			c.Add("router_deliveries_checked", 1)
+			if strings.Join(got, ",") != strings.Join(want, ",") {
+				bad("router-delivery-differs-from-delivery-set", "for chain %s the router delivers %v but the block's delivery set lists %v", chain, shortHashes(got), shortHashes(want))
+			}
 		}
 	}
 	for i, e := range st.exp {
